@@ -13,8 +13,9 @@ import CpModel.UnreprIO
 
     conf <D|M> <method> <root> <noneattrs> <nodes> <sections> <global conf> <path>
         → `K=<effective config dict> TM=<toolmaps['tools']> RUN=<tools set up with kwargs> X=<0|1>` | `E:<err>`
-    confh <D|M> <method> <root> <noneattrs> <nodes> <sections> <global conf> <path> <tool handlers>
-        → the same plus ` H=<tool>:<kwargs of the page-handler tool call>` | ` H=-`
+    confh <D|M> <method> <root> <noneattrs> <nodes> <sections> <global conf> <path> <tool handlers> <box tools>
+        → the same plus ` H=<tool>:<kwargs of the page-handler tool call>` | ` H=-` and ` CRUN=<ns.name>:<kwargs>;…`
+          (box tools = `-` | <toolbox ns>:<attribute name>:<namespace the tool object carries>;…  — custom toolboxes)
           (tool handlers = `-` | <node id>:<tool>:<kwargs conf>;…   — `tools.<t>.handler(**kw)` page handlers)
     ns <handlers> <conf>       → `EV=<events> P=<0|1>`        (NamespaceSet.__call__; P: an exception leaves the call)
           handlers = `-` | <name>:<P | C0 | C1>:<raises: - | key+key…>;…      events = `-` | e:<ns> | c:<ns>:<k>:<val> | x:<ns>:<0|1>, …
@@ -40,6 +41,15 @@ open CpModel CpModel.Dispatch CpModel.DispatchIO CpModel.Config
 namespace Drv.C08
 
 def showToolList (l : List (Name × Conf)) : String :=
+  if l.isEmpty then "-" else ";".intercalate (l.map fun (t, c) => Proto.text t ++ ":" ++ showConf c)
+
+/-- `<ns>:<name>:<home>` — a tool of a custom toolbox -/
+def parseBox (s : String) : Option BoxTool :=
+  match s.splitOn ":" with
+  | [ns, n, h] => do pure { ns := ← parseName ns, name := ← parseName n, home := ← parseName h }
+  | _ => none
+
+def showCustom (l : List (Name × Conf)) : String :=
   if l.isEmpty then "-" else ";".intercalate (l.map fun (t, c) => Proto.text t ++ ":" ++ showConf c)
 
 def parseTh (s : String) : Option ConfigHist.ToolHandler :=
@@ -158,17 +168,19 @@ def step (line : String) : String :=
       | some none => "?"
       | some (some e) => showEffect e
     | _, _ => "bad-op"
-  | ["confh", kind, meth, root, na, nodes, secs, glob, path, th] =>
-    match parseApp root na nodes secs, Proto.untext? path, parseName meth, parseConf glob, parseList ";" parseTh th with
-    | some app, some p, some m, some g, some ths =>
+  | ["confh", kind, meth, root, na, nodes, secs, glob, path, th, boxes] =>
+    match parseApp root na nodes secs, Proto.untext? path, parseName meth, parseConf glob, parseList ";" parseTh th,
+        parseList ";" parseBox boxes with
+    | some app, some p, some m, some g, some ths, some bts =>
       if kind != "M" && kind != "D" then "bad-op" else
       let w : ConfigHist.World := { glob := g.getD [], g := app.g, apps := [app.sections], thkw := ths }
       match ConfigHist.observe w 0 (kind == "M") m p with
       | .error e => s!"E:{showErr e}"
       | .ok o =>
         let c := match ConfigHist.effective w 0 (kind == "M") m p with | .ok c => c | .error _ => []
-        s!"K={showConf o.config} TM={showToolList o.toolmap} RUN={showToolList o.setup} X={if toolmapError c then 1 else 0} H={showToolList o.page.toList}"
-    | _, _, _, _, _ => "bad-op"
+        let cr := (boxToolsSetup c bts).map fun (t, kw) => (t.ns ++ '.' :: t.name, kw)
+        s!"K={showConf o.config} TM={showToolList o.toolmap} RUN={showToolList o.setup} X={if toolmapError c then 1 else 0} H={showToolList o.page.toList} CRUN={showCustom cr}"
+    | _, _, _, _, _, _ => "bad-op"
   | ["conf", kind, meth, root, na, nodes, secs, glob, path] =>
     match parseApp root na nodes secs, Proto.untext? path, parseName meth, parseConf glob with
     | some app, some p, some m, some g =>
